@@ -98,39 +98,83 @@ def B(a, **kw):
     return step(a, BB_FIELDS, **kw)
 
 
-def bb_exclusive(nkeys, rng):
+def bb_exclusive(nkeys, rng, wn=1, rn=1):
     """Directed script for the uniqueness clause: every way to ask for a second writer / a second write
-    handle (same writer, handle loaned out, writer port already dropped), each followed by an update of
-    the first holder and reads through handles created before."""
+    handle (same writer, handle loaned out, writer port already dropped).  Every refused request is
+    REPEATED (second, third, fourth ... attempt while the first holder lives: a refusal must not change
+    what the next attempt meets) and each burst is followed by an update of the first holder and reads
+    through handles created before.  The writer lives on node `wn`, the readers on node `rn`, the intruding
+    writer is requested through both (with the mixed variants of the driver the two nodes use different
+    front ends of the API)."""
     keys = list(range(1, nkeys + 1))
-    P = [B("cr", o=1, n=1)] + [B("re", o=1, key=k) for k in keys] + [B("get", o=1, key=k) for k in keys]
-    P += [B("cw", o=1, n=1), B("cw", o=2, n=1), B("cw", o=2, n=1)]
+    other = rn if rn != wn else wn
+
+    def again(s, lo=2, hi=4):       # a burst of identical requests that must all be refused
+        return [dict(s) for _ in range(rng.randint(lo, hi))]
+
+    def intruders():                # second writer port: asked for repeatedly, under several ids, via both nodes
+        return [B("cw", o=rng.choice([2, 3, 4]), n=rng.choice([wn, other])) for _ in range(rng.randint(2, 4))]
+
+    P = [B("open", n=n) for n in sorted({wn, rn} - {1})]
+    P += [B("cr", o=1, n=rn)] + [B("re", o=1, key=k) for k in keys] + [B("get", o=1, key=k) for k in keys]
+    P += [B("cw", o=1, n=wn)] + intruders()
     for k in keys:
-        P += [B("we", o=1, key=k), B("we", o=1, key=k), B("upd", o=1, key=k), B("get", o=1, key=k),
-              B("we", o=1, key=k), B("get", o=1, key=k)]
-    P += [B("we", o=1, key=nkeys + 1), B("we", o=1, key=keys[0], x=1), B("re", o=1, key=nkeys + 1)]
+        P += [B("we", o=1, key=k)] + again(B("we", o=1, key=k)) + [B("upd", o=1, key=k), B("get", o=1, key=k)]
+        P += again(B("we", o=1, key=k), 1, 3) + [B("get", o=1, key=k), B("upd", o=1, key=k), B("get", o=1, key=k)]
+    P += again(B("we", o=1, key=nkeys + 1), 1, 2) + again(B("we", o=1, key=keys[0], x=1), 1, 2) + [B("re", o=1, key=nkeys + 1)]
+    # refusals for another reason (missing key, wrong value type) must not disturb the holder either
+    P += again(B("we", o=1, key=keys[0]), 1, 2) + [B("upd", o=1, key=keys[0]), B("get", o=1, key=keys[0])]
     for k in keys:
-        P += [B("loan", o=1, key=k), B("we", o=1, key=k), B("cw", o=2, n=1), B("lw", o=1, key=k), B("get", o=1, key=k)]
-        how = rng.choice(["disc", "commit", "ccopy"])
-        P += [B(how, o=1, key=k), B("get", o=1, key=k), B("we", o=1, key=k)]
-        if how == "disc":      # what was written into the discarded loan must never show up
-            P += [B("loan", o=1, key=k), B("ccopy", o=1, key=k), B("get", o=1, key=k)]
+        P += [B("loan", o=1, key=k)] + again(B("we", o=1, key=k)) + intruders()
+        hows = ["disc", "commit", "ccopy"]      # every way to end a loan, in a random order
+        rng.shuffle(hows)
+        for i, how in enumerate(hows):
+            if i > 0:
+                P += [B("loan", o=1, key=k)] + again(B("we", o=1, key=k), 1, 2)
+            P += [B("lw", o=1, key=k), B("get", o=1, key=k)] + again(B("we", o=1, key=k), 1, 2)
+            # what was written into a discarded loan must never show up
+            P += [B(how, o=1, key=k), B("get", o=1, key=k)] + again(B("we", o=1, key=k), 1, 3)
+            P += [B("upd", o=1, key=k), B("get", o=1, key=k)]
+    # release and re-acquire: after the bursts exactly one release makes exactly one acquisition possible
+    k0 = rng.choice(keys)
+    P += [B("wd", o=1, key=k0), B("we", o=1, key=k0)] + again(B("we", o=1, key=k0)) + [B("upd", o=1, key=k0), B("get", o=1, key=k0)]
     # the writer port goes, its handles keep the registration: still no second writer
-    P += [B("dw", o=1), B("cw", o=2, n=1)]
+    P += [B("dw", o=1)] + intruders()
     order = keys[:]
     rng.shuffle(order)
     for k in order:
-        P += [B("upd", o=1, key=k), B("get", o=1, key=k), B("cw", o=2, n=1)]
+        P += [B("upd", o=1, key=k), B("get", o=1, key=k)] + intruders()
         if rng.random() < 0.5:
             P += [B("loan", o=1, key=k)]        # dropped as EntryValueUninit
-        P += [B("wd", o=1, key=k), B("cw", o=2, n=1)]
-    # after the last handle the second writer got in: it takes over every key
+        P += [B("wd", o=1, key=k)]
+        if k != order[-1]:
+            P += intruders()
+    # after the last handle the second writer gets in (through the other node): it takes over every key
+    P += [B("cw", o=2, n=other)]
     for k in keys:
-        P += [B("we", o=2, key=k), B("upd", o=2, key=k), B("get", o=1, key=k), B("we", o=2, key=k)]
-    P += [B("cw", o=1, n=1), B("dr", o=1)] + [B("get", o=1, key=k) for k in keys]
-    P += [B("wd", o=2, key=keys[0]), B("we", o=2, key=keys[0]), B("dw", o=2), B("cw", o=1, n=1)]
+        P += [B("we", o=2, key=k), B("upd", o=2, key=k), B("get", o=1, key=k)] + again(B("we", o=2, key=k))
+        P += [B("upd", o=2, key=k), B("get", o=1, key=k)]
+    P += again(B("cw", o=1, n=wn)) + [B("dr", o=1)] + [B("get", o=1, key=k) for k in keys]
+    P += [B("wd", o=2, key=keys[0]), B("we", o=2, key=keys[0]), B("dw", o=2)] + again(B("cw", o=1, n=wn))
     P += [B("upd", o=2, key=keys[0]), B("get", o=1, key=keys[0])]
     return P
+
+
+def refusal_bursts(steps, rng, p=0.6):
+    """Program transformation applied to the TLC-generated walks: a request for a write handle is re-issued
+    1-3 times right after it was made and a request for a writer port is followed by requests for further
+    writer ports (ids 3, 4 - never used by the generator).  Whatever the original request returned, the
+    specification refuses every one of the added requests (ExpWEntry / ExpCreateWriter in the state after the
+    original), none of them changes the state, so the rest of the walk stays executable: the walk now
+    contains second, third and fourth attempts followed by whatever the holder and the readers do next."""
+    out = []
+    for s in steps:
+        out.append(s)
+        if s["a"] == "we" and rng.random() < p:
+            out += [dict(s) for _ in range(rng.randint(1, 3))]
+        elif s["a"] == "cw" and rng.random() < p:
+            out += [dict(s, o=rng.choice([3, 4])) for _ in range(rng.randint(1, 3))]
+    return out
 
 
 def probe_tail(pat, prog):
@@ -263,6 +307,38 @@ def check_truncation(summary, accepted, what):
                            "every recorded call conforms to the specification")
 
 
+def count_repeated_refusals(recs):
+    """per front end (0 typed, 1 custom key): refusals of a write handle / a writer port that directly follow
+    a refusal of the same request (= third and later attempts while the first holder lives)"""
+    n = {0: 0, 1: 0}
+    prev = None
+    for r in recs:
+        if r.get("k") != "op":
+            prev = None
+            continue
+        refused = r["a"] in ("cw", "we") and r["res"] in ("ExceedsMaxSupportedWriters", "HandleAlreadyExists")
+        cur = (r["a"], r["key"], r.get("fe", 0)) if refused else None
+        if cur is not None and cur == prev:
+            n[r.get("fe", 0)] += 1
+        prev = cur
+    return n
+
+
+def count_cross_reads(recs):
+    """reads through one front end of a value published through the other: (typed writer -> custom-key reader,
+    custom-key writer -> typed reader)"""
+    n = {(0, 1): 0, (1, 0): 0}
+    pub = {}
+    for r in recs:
+        if r.get("k") != "op":
+            pub = {}
+        elif r["a"] in ("upd", "commit", "ccopy") and r["res"] == "ok":
+            pub[r["key"]] = r.get("fe", 0)
+        elif r["a"] == "get" and r["res"] == "ok" and pub.get(r["key"], r.get("fe", 0)) != r.get("fe", 0):
+            n[(pub[r["key"]], r.get("fe", 0))] += 1
+    return n
+
+
 def count_probes(recs):
     """refusal of a second writer / handle followed by an update of the holder and a read that saw it"""
     n, state = 0, 0
@@ -324,14 +400,25 @@ def bb_cfg_tla(nk, r, n):
     return f"[nkeys |-> {nk}, rreq |-> {r}, nreq |-> {n}, reff |-> {e(r)}, neff |-> {e(n)}]"
 
 
-def bb_jobs_from(progs, variants, label):
+def bb_jobs_from(progs, variants, label, rng=None):
     jobs = []
     for i, p in enumerate(progs):
         c = p["cfg"]
+        steps = normalise(p["steps"], BB_FIELDS)
+        if rng is not None:
+            steps = refusal_bursts(steps, rng)
         jobs.append({"pat": "bb", "variant": variants[i % len(variants)], "src": label,
                      "cfg": {"nkeys": c["nkeys"], "rreq": c["rreq"], "nreq": c["nreq"]},
-                     "program": normalise(p["steps"], BB_FIELDS)})
+                     "program": steps})
     return jobs
+
+
+# front ends of the driver's world (harness/drivers/blackboard/src/bb.rs): typed API, custom key
+# (type-erased API of the language bindings) everywhere, and the two mixtures per node
+BB_VARIANTS = ["ipc", "local", "ipc-ck", "local-ck", "ipc-mx", "local-xm", "local-mx", "ipc-xm"]
+FE_NEEDED = ["we:ok", "we:HandleAlreadyExists", "we:EntryDoesNotExist", "cw:ok", "cw:ExceedsMaxSupportedWriters",
+             "upd:ok", "loan:ok", "lw:ok", "commit:ok", "ccopy:ok", "disc:ok", "wd:ok", "dw:ok", "cr:ok", "re:ok",
+             "re:EntryDoesNotExist", "get:ok"]
 
 
 # ---------------------------------------------------------------------------------------------
@@ -343,6 +430,7 @@ def c12_blackboard(ctx):
     vp.cargo_build([DRIVER])
     cleanup_shm()
     ctx.assumptions += ["blackboard port level: sequential API histories (one thread), ipc and local services, "
+                        "typed API and custom-key (type-erased, language binding) API and their mixtures per node, "
                         "keys u64, value types u32 / u64 / [u64; 9]; concurrency of the entry itself is the "
                         "SeqLock2 part of this check"]
     # 1. the specification itself
@@ -356,18 +444,30 @@ def c12_blackboard(ctx):
             "Q |-> {0}, maxv |-> 1000]")
     progs = simulate(ctx, "Blackboard", "SIMBB", BB_CONSTS, tla_set(bb_cfg_tla(*c) for c in cfgs), univ,
                      num=12 if quick else 150, depth=70 if quick else 120, seed=seed)
-    variants = ["ipc", "local"]
-    jobs = bb_jobs_from(progs, variants, "simulated")
-    for i in range(2 if quick else 12):
-        for nk in (1, 2, 3) if (not quick or i == 0) else (rng.randint(1, 3),):
-            jobs.append({"pat": "bb", "variant": variants[(i + nk) % 2], "src": "directed",
-                         "cfg": {"nkeys": nk, "rreq": rng.choice([1, 2]), "nreq": 1},
-                         "program": bb_exclusive(nk, rng)})
+    variants = BB_VARIANTS[seed % len(BB_VARIANTS):] + BB_VARIANTS[:seed % len(BB_VARIANTS)]
+    # the walks as generated (first third) and with refusal bursts (second, third, fourth attempts)
+    jobs = bb_jobs_from(progs[:len(progs) // 3], variants, "simulated")
+    jobs += bb_jobs_from(progs[len(progs) // 3:], variants[3:] + variants[:3], "simulated+bursts", rng)
+    for i in range(1 if quick else 6):
+        for vi, variant in enumerate(BB_VARIANTS):
+            nk = 1 + (vi + i + seed) % 3
+            mixed = variant.endswith(("-mx", "-xm"))
+            # mixed variants: node 1 and node 2 use different front ends - writer and readers on different nodes
+            # (placement fixed per variant so that typed writer -> custom-key reader and the converse both occur)
+            if mixed:
+                wn, rn = [(1, 2), (2, 1)][(BB_VARIANTS.index(variant) // 2 + i + seed) % 2]
+            else:
+                wn, rn = rng.choice([(1, 1), (1, 1), (2, 2), (1, 2)])
+            jobs.append({"pat": "bb", "variant": variant, "src": "directed",
+                         "cfg": {"nkeys": nk, "rreq": rng.choice([1, 2]), "nreq": 1 if (wn, rn) == (1, 1) else rng.choice([2, 3])},
+                         "program": bb_exclusive(nk, rng, wn, rn)})
     trace, summ = execute(ctx, jobs, "c12bb")
     ctx.evaluations += summ["jobs"]
     ctx.distinct += len({json.dumps(j["program"]) for j in jobs})
     recs = vp.read_ndjson(trace)
     probes = count_probes(recs)
+    repeats = count_repeated_refusals(recs)
+    cross = count_cross_reads(recs)
     ok = validate(ctx, "bb", "BlackboardTrace", trace, jobs, "port level")
     if ok and not summ.get("aborted"):      # vacuity guards of the trace direction (meaningless after a rejection)
         check_truncation(summ, ok, "blackboard port level")
@@ -376,8 +476,22 @@ def c12_blackboard(ctx):
                               "dw:ok", "wd:ok"], "blackboard port level")
         if probes < 3:
             raise vp.ToolError(f"vacuous run: only {probes} refusal -> update -> read probes were executed")
+        # both front ends of the API must have made every kind of call, and third-and-later attempts
+        fe_ev = summ.get("fe_events", {})
+        missing = [f"{fe}:{e}" for fe in ("ty", "ck") for e in FE_NEEDED if fe_ev.get(f"{fe}:{e}", 0) == 0]
+        if missing:
+            raise vp.ToolError(f"vacuous run (blackboard front ends): the real API never produced {missing}")
+        if min(repeats.values()) < 4:
+            raise vp.ToolError(f"vacuous run: repeated refusals per front end {repeats} (typed / custom key)")
+        if min(cross.values()) < 2:
+            raise vp.ToolError(f"vacuous run: reads across the front ends {cross}")
     ctx.coverage["blackboard_port_level"] = {"programs": len(jobs), "calls": summ["ops"], "events": summ["events"],
-                                             "refusal_update_read_probes": probes}
+                                             "refusal_update_read_probes": probes,
+                                             "front_end_events": summ.get("fe_events", {}),
+                                             "repeated_refusals_typed": repeats[0],
+                                             "repeated_refusals_custom_key": repeats[1],
+                                             "reads_typed_writer_custom_key_reader": cross[(0, 1)],
+                                             "reads_custom_key_writer_typed_reader": cross[(1, 0)]}
     run0 = vp.split_runs(recs)[-1]
     ctx.sample({"blackboard_api": [f"{r['a']}({r['o']},{r['key']})={r['res']}" + (f":v{r['v']}" if r["a"] == "get" else "")
                                    for r in run0 if r.get("k") == "op"][:40]})
@@ -387,6 +501,14 @@ def c12_blackboard(ctx):
         selftest(ctx, "BlackboardTrace", trace, lambda r: r.get("a") == "get" and r.get("v", 0) >= 2,
                  lambda r: r.update(v=r["v"] - 1), "stale_value", ("ReadSeesLatest", "ReadIsSomeWrite", "FailureLeavesFirstUndisturbed", "Monotone"))
         selftest(ctx, "BlackboardTrace", trace, lambda r: r.get("a") == "upd", None, "dropped_update")
+        # the same through the custom key front end: a THIRD attempt (refusal that follows a refusal) granted
+        third = [i for i in range(1, len(recs)) if all(r.get("a") == "we" and r.get("res") == "HandleAlreadyExists"
+                                                       and r.get("fe") == 1 for r in recs[i - 1:i + 1])]
+        if not third:
+            raise vp.ToolError("selftest: no third attempt through the custom key front end recorded")
+        position = iter(range(len(recs) + 1))      # selftest scans the records of the same file in order
+        selftest(ctx, "BlackboardTrace", trace, lambda r: next(position) == third[0],
+                 lambda r: r.update(res="ok"), "third_attempt_granted_custom_key", ("OneHandlePerKey", "BeyondRejected"))
         selftest(ctx, "BlackboardTrace", trace, lambda r: r.get("a") == "cw" and r.get("res") != "ok",
                  lambda r: r.update(nw=r["nw"] + 1), "registry_leftover", ("RefusalHasNoSideEffect", "CountsExact", "FailureLeavesFirstUndisturbed"))
     cleanup_shm()
